@@ -379,6 +379,13 @@ impl<RW: QueueRW<T>, T> MultiQueue<RW, T> {
                     if self.writers.load(Relaxed) == 0 {
                         fence(Acquire);
                         if rm_tag(read_cell.wraps.load(Acquire)) != wrap_valid_tag {
+                            // On a shared stream another consumer may have taken this position since
+                            // it was loaded (and the slot may have been reused since): the stream has
+                            // only ended if the position is still the one we looked at.
+                            if !is_single && reader.load_count(Relaxed) != wrap_valid_tag {
+                                ctail_attempt = ctail_attempt.reload();
+                                continue;
+                            }
                             return Err((ptr::null(), TryRecvError::Disconnected));
                         }
                     }
